@@ -65,7 +65,8 @@ def terminator_rule(F, G, rep):
                         x0 = x.get("e") if x.get("k") == "Expr" else x
                         if x0.get("k") == "Try":
                             tries.append(callee(strip(x0["e"])) or "")
-                    ok55 = tries[:2] == ["io::slippi::de::parse_metadata", "io::expect_bytes"] and "(125)" in tir.pretty(arms[0x55]).replace("[", "(").replace("]", ")")
+                    eb = [x for x in tir.walk(arms[0x55]) if x.get("k") == "Call" and (declared(x) or "") == "io::expect_bytes"]
+                    ok55 = tries[:2] == ["io::slippi::de::parse_metadata", "io::expect_bytes"] and len(eb) == 1 and F.bytes_of(eb[0]["args"][1]) == [0x7d]
                     rep.ob("D.metadata-arm", ok55, SLP_READ, "0x55", "the metadata arm must run parse_metadata(..)? and then expect_bytes(.., [0x7d])? unconditionally; found %s" % tries)
                     d = L.strip_try(default) if default else {}
                     dret = d.get("k") == "Ret" and (declared(strip(d.get("e") or {})) or "").endswith("::Err")
